@@ -35,6 +35,10 @@ class GL(list[T]): pass
 S = TypeVar('S')
 class GD(dict[T, S]): pass
 class GS(set[T]): pass
+class GLI(GL[int]): pass                 # two-level hierarchies: the intermediate level binds ...
+class GL2(GL[S]): pass                  # ... or forwards the type variable
+class GLI3(GL2[int]): pass              # three levels
+class GDI(GD[str, T]): pass             # partially bound
 class GI(dict[S, T], Generic[T, S]): pass      # declared parameter order (T, S) differs from the order in its base: GI[A, B] is a dict[B, A]
 
 def _reg(v, d): VDESC[id(v)] = (d, v); return v
@@ -112,6 +116,7 @@ NS['gt3'] = gt3
 NULLARY += ['type[L0]', 'type[int]', 'type[Union[L0, int]]', 'type[TB]', 'tuple[Annotated[object, ISEQ(5), IS(gt3)]]',
             "list[Annotated[object, ISATTR('x', ISEQ(1))]]", 'Annotated[int, ISEQ(5), IS(gt3)]']
 LEAVES_EXT += ['type[L1]', 'Annotated[object, ISEQ(5), IS(gt3)]']
+NULLARY += ['GLI', 'GL2[int]', 'GLI3', 'GDI[L0]', 'list[GLI]', 'GL2[L0]']
 NULLARY += ['GI[L0, int]', 'GI[str, L1]', 'list[GI[int, str]]']
 NULLARY += ['GD[L0, T]', 'GD[L0, GS[L1]]', 'GD[GL[L1], GS[int]]', 'GL[GL[L0]]', 'GD[str, GD[int, L0]]', 'list[GD[L0, GL[L1]]]']
 UNARY += ['GS[{0}]']
